@@ -215,7 +215,9 @@ def move_staticmethod_static_scope(source: str, preserve: Collection[str]) -> st
                 ],
                 type_params=[],
                 returns=funcdef.returns,
-                lineno=classdef.lineno - 1,
+                # Insert at the first line of the class. The line before it may belong to
+                # the body of the preceding statement.
+                lineno=min([classdef.lineno] + [dec.lineno for dec in classdef.decorator_list]),
                 col_offset=classdef.col_offset,
             )
             yield funcdef, None, transaction
